@@ -162,6 +162,10 @@ pub struct Feat {
     /// `print flags` / pushf images allowed while the program has TF set (not for sessions that
     /// are compared with a reference variant whose TF stays clear)
     pub flags_under_tf: bool,
+    /// the wider instruction repertoire (shifts, rotates, multiply / divide, lea, xlat, single
+    /// string instructions in both directions, memory operands of every kind, segment overrides,
+    /// decimal adjusts, signed conditions, loope / loopne, jcxz)
+    pub wide: bool,
 }
 
 impl Feat {
@@ -185,6 +189,7 @@ impl Feat {
             edges: false,
             bad_ah: false,
             flags_under_tf: false,
+            wide: false,
         }
     }
     /// swarm: each feature on with probability pct
@@ -208,6 +213,7 @@ impl Feat {
             edges: r.chance(pct),
             bad_ah: r.chance(pct / 5),
             flags_under_tf: false,
+            wide: r.chance(pct),
         }
     }
 }
@@ -531,6 +537,9 @@ impl<'a> G<'a> {
             self.tag("access_at_exactly_1mb");
             return;
         }
+        if self.cfg.feat.wide && self.r.chance(35) {
+            return self.wide();
+        }
         let k = self.r.below(14);
         match k {
             0 => {
@@ -614,6 +623,251 @@ impl<'a> G<'a> {
             _ => {
                 let (a, b) = (self.wreg(), self.imm16());
                 self.ins(&format!("mov {}, {}", a, b), "plain")
+            }
+        }
+    }
+
+    /// a memory operand with an explicit segment register in front now and then
+    fn memop_seg(&mut self) -> String {
+        let m = match self.r.below(8) {
+            0 => format!("[{}]", self.imm16()),
+            1 => "[bx]".to_owned(),
+            2 => "[si]".to_owned(),
+            3 => "[di]".to_owned(),
+            4 => "[bp]".to_owned(),
+            5 => format!("[bp, {}]", self.r.below(64)),
+            6 => format!("[bp, di, {}]", self.r.below(16)),
+            _ => format!("[bx, si, {}]", self.r.below(16)),
+        };
+        if self.r.chance(35) {
+            format!("{}{}", self.r.pick(&["es", "ss", "ds", "cs"]), m)
+        } else {
+            m
+        }
+    }
+
+    /// the wider repertoire: nothing here is judged for its result (what an instruction should
+    /// compute belongs to properties that are not claimed); it is workload for the relations
+    /// between runs and for the absolute oracles on what the console shows
+    fn wide(&mut self) {
+        self.tag("wide_repertoire");
+        match self.r.below(16) {
+            0 => {
+                let op = *self.r.pick(&["sal", "shl", "sar", "shr", "rol", "ror", "rcl", "rcr"]);
+                let a = if self.r.chance(50) { self.wreg() } else { self.breg() };
+                let n = *self.r.pick(&[0u16, 1, 1, 1, 2, 3, 7, 8, 9, 15, 16, 17, 31, 32, 33, 255]);
+                self.ins(&format!("{} {}, {}", op, a, n), "plain")
+            }
+            1 if !self.cx_busy => {
+                let op = *self.r.pick(&["sal", "shl", "sar", "shr", "rol", "ror", "rcl", "rcr"]);
+                let n = *self.r.pick(&[0u16, 1, 4, 7, 8, 9, 16, 17, 200]);
+                let sn = self.num16(n);
+                self.ins(&format!("mov cl, {}", sn), "plain");
+                if self.r.chance(50) {
+                    let a = if self.r.chance(50) { self.wreg() } else { self.breg() };
+                    self.ins(&format!("{} {}, cl", op, a), "plain")
+                } else {
+                    let w = *self.r.pick(&["byte", "word"]);
+                    let m = self.memop_seg();
+                    self.ins(&format!("{} {} {}, cl", op, w, m), "plain")
+                }
+            }
+            2 => {
+                let op = *self.r.pick(&["mul", "imul"]);
+                match self.r.below(3) {
+                    0 => {
+                        let a = self.wreg();
+                        self.ins(&format!("{} {}", op, a), "muldiv")
+                    }
+                    1 => {
+                        let a = self.breg();
+                        self.ins(&format!("{} {}", op, a), "muldiv")
+                    }
+                    _ => {
+                        let w = *self.r.pick(&["byte", "word"]);
+                        let m = self.memop_seg();
+                        self.ins(&format!("{} {} {}", op, w, m), "muldiv")
+                    }
+                }
+            }
+            3 => {
+                // a division that usually fits; one in ten is left to chance (it may end the run
+                // in the divide error, which is an ordinary way for a program to end)
+                let op = *self.r.pick(&["div", "idiv"]);
+                if self.r.chance(50) {
+                    if !self.r.chance(10) {
+                        let v = self.r.below(0x0800) as u16;
+                        let sv = self.num16(v);
+                        self.ins(&format!("mov ax, {}", sv), "plain");
+                        let d = 0x20 + self.r.below(0x50) as u16;
+                        let sd = self.num16(d);
+                        self.ins(&format!("mov bl, {}", sd), "plain");
+                    }
+                    self.ins(&format!("{} bl", op), "muldiv")
+                } else {
+                    if !self.r.chance(10) {
+                        let v = self.r.below(0x0100) as u16;
+                        let sv = self.num16(v);
+                        self.ins(&format!("mov dx, {}", sv), "plain");
+                        let d = 0x0200 + self.r.below(0x7000) as u16;
+                        let sd = self.num16(d);
+                        self.ins(&format!("mov bx, {}", sd), "plain");
+                    }
+                    self.ins(&format!("{} bx", op), "muldiv")
+                }
+            }
+            4 => {
+                let a = self.wreg();
+                let m = self.memop_seg();
+                self.ins(&format!("lea {}, word {}", a, m), "plain")
+            }
+            5 => self.ins("xlat", "plain"),
+            6 => {
+                if self.r.chance(40) {
+                    let d = *self.r.pick(&["std", "cld"]);
+                    self.ins(d, "plain");
+                }
+                let op = *self.r.pick(&["movs", "stos", "lods", "cmps", "scas"]);
+                let w = *self.r.pick(&["byte", "word"]);
+                self.ins(&format!("{} {}", op, w), "string")
+            }
+            7 => {
+                // (`push word [bx]` / `pop word [bx]` are not generated: the assembler emits them
+                // in a form the instruction reader rejects - an "Internal Error" report, a
+                // disagreement between the two grammars that is not ours to judge)
+                let sr = *self.r.pick(&["es", "ds", "ss", "cs"]);
+                self.ins(&format!("push {}", sr), "stack");
+                // (this may sit in a procedure body, generated before the trap flag is switched on)
+                if self.r.chance(50) && (!self.cfg.feat.tf || self.cfg.feat.flags_under_tf) {
+                    self.ins("pushf", "stack");
+                    let b = self.wreg();
+                    self.ins(&format!("pop {}", b), "stack");
+                }
+                let a = self.wreg();
+                self.ins(&format!("pop {}", a), "stack");
+            }
+            8 => {
+                let m = self.memop_seg();
+                if self.r.chance(50) {
+                    let a = self.wreg();
+                    if self.r.chance(50) {
+                        self.ins(&format!("xchg {}, word {}", a, m), "plain")
+                    } else {
+                        self.ins(&format!("xchg word {}, {}", m, a), "plain")
+                    }
+                } else {
+                    let a = self.breg();
+                    if self.r.chance(50) {
+                        self.ins(&format!("xchg {}, byte {}", a, m), "plain")
+                    } else {
+                        self.ins(&format!("xchg byte {}, {}", m, a), "plain")
+                    }
+                }
+            }
+            9 => {
+                let op = *self.r.pick(&["aaa", "aas", "daa", "das", "aam", "aad", "sahf", "lahf", "cbw", "cwd", "std", "cld", "cmc"]);
+                self.ins(op, "plain")
+            }
+            10 => {
+                let m = self.memop_seg();
+                let op = *self.r.pick(&["add", "adc", "sub", "sbb", "cmp", "and", "or", "xor", "test"]);
+                match self.r.below(4) {
+                    0 => {
+                        let a = self.wreg();
+                        self.ins(&format!("{} word {}, {}", op, m, a), "plain")
+                    }
+                    1 => {
+                        let a = self.breg();
+                        self.ins(&format!("{} {}, byte {}", op, a, m), "plain")
+                    }
+                    2 => {
+                        let v = self.imm16();
+                        self.ins(&format!("{} word {}, {}", op, m, v), "plain")
+                    }
+                    _ => {
+                        let v = self.imm8();
+                        self.ins(&format!("{} byte {}, {}", op, m, v), "plain")
+                    }
+                }
+            }
+            11 => {
+                let m = self.memop_seg();
+                let op = *self.r.pick(&["inc", "dec", "neg", "not"]);
+                let w = *self.r.pick(&["byte", "word"]);
+                self.ins(&format!("{} {} {}", op, w, m), "plain")
+            }
+            12 => {
+                let m = self.memop_seg();
+                let op = *self.r.pick(&["sal", "shl", "sar", "shr", "rol", "ror", "rcl", "rcr"]);
+                let w = *self.r.pick(&["byte", "word"]);
+                let n = *self.r.pick(&[0u16, 1, 1, 2, 7, 8, 9, 15, 16, 17]);
+                self.ins(&format!("{} {} {}, {}", op, w, m, n), "plain")
+            }
+            13 => {
+                // segment registers through memory and the stack
+                let m = self.memop_seg();
+                match self.r.below(4) {
+                    0 => {
+                        let sr = *self.r.pick(&["es", "ds", "ss", "cs"]);
+                        self.ins(&format!("mov word {}, {}", m, sr), "plain")
+                    }
+                    1 => {
+                        let sr = *self.r.pick(&["es", "ds"]);
+                        self.ins(&format!("mov {}, word {}", sr, m), "plain")
+                    }
+                    2 => {
+                        let sr = *self.r.pick(&["es", "ds", "ss", "cs"]);
+                        let a = self.wreg();
+                        self.ins(&format!("push {}", sr), "stack");
+                        self.ins(&format!("pop {}", a), "stack");
+                    }
+                    _ => {
+                        let sr = *self.r.pick(&["es", "ds", "ss", "cs"]);
+                        let a = self.wreg();
+                        self.ins(&format!("mov {}, {}", a, sr), "plain")
+                    }
+                }
+            }
+            14 if self.cfg.feat.jumps && self.depth < 3 => {
+                // signed / parity / overflow conditions and jcxz over a short block
+                let l = self.label();
+                let (a, b) = (self.wreg(), self.imm16());
+                let op = *self.r.pick(&["cmp", "sub", "add", "test"]);
+                self.ins(&format!("{} {}, {}", op, a, b), "plain");
+                let j = *self.r.pick(&[
+                    "jg", "jnle", "jge", "jnl", "jl", "jnge", "jle", "jng", "jo", "jno", "jp", "jpe", "jnp", "jpo",
+                    "jae", "jnb", "jbe", "jnae", "jnbe", "jcxz", // not `jna`: accepted by the assembler, unknown to the instruction reader
+                ]);
+                self.ins(&format!("{} {}", j, l), "jump");
+                self.depth += 1;
+                let k = self.r.urange(1, 2);
+                for _ in 0..k {
+                    self.plain();
+                }
+                self.depth -= 1;
+                self.raw(&format!("{}:", l));
+            }
+            15 if self.cfg.feat.loops && self.depth < 2 && !self.cx_busy => {
+                // loope / loopne: the trip count depends on ZF as well as on CX, never above CX
+                let l = self.label();
+                let n = self.r.range(1, 4) as u16;
+                let s = self.num16(n);
+                self.ins(&format!("mov cx, {}", s), "plain");
+                self.raw(&format!("{}:", l));
+                self.cx_busy = true;
+                self.depth += 1;
+                self.plain();
+                let (a, b) = (self.wreg(), self.imm16());
+                self.ins(&format!("cmp {}, {}", a, b), "plain");
+                self.depth -= 1;
+                self.cx_busy = false;
+                let op = *self.r.pick(&["loope", "loopz", "loopne", "loopnz"]);
+                self.ins(&format!("{} {}", op, l), "jump");
+            }
+            _ => {
+                let a = self.wreg();
+                let m = self.memop_seg();
+                self.ins(&format!("mov {}, word {}", a, m), "plain")
             }
         }
     }
